@@ -125,6 +125,14 @@ func runCheck(args []string) {
 	if *tier == "thorough" {
 		t1, t2 = 10, 150
 	}
+	if v := os.Getenv("GOCV_T2"); v != "" {
+		// sweeps over seeded changes: shorter second stage and no final retry (a failing obligation
+		// stays failing; only the time to report it shrinks)
+		if n, err := strconv.Atoi(v); err == nil && n > 0 {
+			t2 = n
+			e.noRetry = true
+		}
+	}
 	dir := filepath.Join(os.TempDir(), fmt.Sprintf("gocv_%s_%d", *prop, os.Getpid()))
 	checkTmpDir = dir
 	defer cleanTmp()
